@@ -100,32 +100,42 @@ func TestReplayC05(t *testing.T) { runReplay(t, "C05", checkC05) }
 
 var legacyFams = []famWeight{{"K1", 25}, {"K2", 20}, {"K3", 10}, {"K4", 10}, {"K5", 10}, {"K6", 8}, {"K7", 7}, {"Krand", 10}}
 
+// genLegacyCase draws a case that one of the historical layouts can express.
+func genLegacyCase(t *rapid.T) *Case {
+	c := genTrieCase(t, trieGenOpt{encs: fixedEncNames, fams: legacyFams})
+	if pickU(t, "emptykeyroot", 12) == 0 && len(c.Keys) > 100 && c.Keys[0] != "" {
+		c.Keys = append([]Hex{""}, c.Keys...)
+		if c.HasVals {
+			c.Vals = append([]Hex{Hex(leBytes(0xfffe, c.spec().width))}, c.Vals...)
+		}
+	}
+	c.Load = ""
+	for try := 0; c.Load == "" || c.Load == "reload" || c.Load == "proto" || c.Load == "over"; try++ {
+		forceLegacy(t, c)
+		if try > 8 {
+			// the key set cannot be encoded by the old three-section writers: use the 0.5.10 layout
+			c.Opt = OptSpec{c.Opt[0], 0, 0, 0}
+			c.Load = "0.5.10"
+		}
+	}
+	if isLegacy3(c.Load) && pickU(t, "hdr?", 3) == 0 {
+		c.Ver = Hex(compatibleHeaders3[pickU(t, "hdr", 3)])
+	}
+	return c
+}
+
 func TestC06(t *testing.T) {
-	runProp(t, "C06", checkC06, func(t *rapid.T) *Case {
-		c := genTrieCase(t, trieGenOpt{encs: fixedEncNames, fams: legacyFams})
-		if pickU(t, "emptykeyroot", 12) == 0 && len(c.Keys) > 100 && c.Keys[0] != "" {
-			c.Keys = append([]Hex{""}, c.Keys...)
-			if c.HasVals {
-				c.Vals = append([]Hex{Hex(leBytes(0xfffe, c.spec().width))}, c.Vals...)
-			}
-		}
-		c.Load = ""
-		for try := 0; c.Load == "" || c.Load == "reload" || c.Load == "proto" || c.Load == "over"; try++ {
-			forceLegacy(t, c)
-			if try > 8 {
-				// the key set cannot be encoded by the old three-section writers: use the 0.5.10 layout
-				c.Opt = OptSpec{c.Opt[0], 0, 0, 0}
-				c.Load = "0.5.10"
-			}
-		}
-		if isLegacy3(c.Load) && pickU(t, "hdr?", 3) == 0 {
-			c.Ver = Hex(compatibleHeaders3[pickU(t, "hdr", 3)])
-		}
+	runProp(t, "C06", legacyLiveCheck(checkC06), func(t *rapid.T) *Case {
+		c := genLegacyCase(t)
 		genExtra(t, c)
+		// two-object history: another legacy stream is loaded first and stays alive
+		if pickU(t, "earlier-legacy?", 4) == 0 {
+			c.Earlier = genLegacyCase(t)
+		}
 		return c
 	})
 }
-func TestReplayC06(t *testing.T) { runReplay(t, "C06", checkC06) }
+func TestReplayC06(t *testing.T) { runReplay(t, "C06", legacyLiveCheck(checkC06)) }
 
 // TestC06Fidelity is the self-test of the re-implemented legacy writers: they
 // must reproduce the archived files byte for byte. It is not a violation
